@@ -4,6 +4,9 @@
 //	extract intfunc <file.go> <Func> <LeanNamespace>   straight-line integer function -> Lean BitVec def
 //	extract fingerprint <file.go> <Func|Recv.Method>... normalised-AST hash of functions
 //	extract const <file.go> <Name>                      print a var/const declaration's value expression source
+//	extract seqsites <dir> <LeanNamespace> <LeanIncFunc> <Struct.field,...>   (seqsites.go) every write to the named
+//	                                                    int32 fields in the package, as Lean BitVec update functions + site list
+//	extract seqsites-json <same args>                   the same enumeration as JSON
 //
 // The intfunc translator accepts exactly: parameters/results of fixed-width integer types,
 // statements `if cond { return e }` (no else) and `return e`, and expressions built from
@@ -456,6 +459,11 @@ func main() {
 		fingerprint(os.Args[2], os.Args[3:])
 	case "const":
 		constExpr(os.Args[2], os.Args[3])
+	case "seqsites", "seqsites-json":
+		if len(os.Args) != 6 {
+			die("usage: seqsites dir ns leanIncFunc Struct.field,...")
+		}
+		seqsites(os.Args[2], os.Args[3], os.Args[4], os.Args[5], os.Args[1] == "seqsites-json")
 	default:
 		die("unknown subcommand")
 	}
